@@ -143,11 +143,34 @@ class Ctx:
         self.ptr_params = set()
         self.has_loop = False
         self.abstract = {}       # spelled lvalue -> variable name (slices)
+        self.cell = None         # member name of the array whose elements are abstracted as the variable `cell`
 
     def use(self, name):
         if name not in self.bound and name not in self.free:
             self.free.append(name)
         return name
+
+
+GLOBAL_TABLES = {"bitMask"}     # global constant tables, defined in Generated/Layout.v
+
+
+def is_cell(n, member):
+    while n.get("kind") == "ParenExpr":
+        n = n["inner"][0]
+    if n.get("kind") != "ArraySubscriptExpr":
+        return False
+    base = strip(n["inner"][0])
+    return base.get("kind") == "MemberExpr" and base.get("name") == member
+
+
+def has_call(n, name):
+    if not isinstance(n, dict):
+        return False
+    if n.get("kind") == "CallExpr":
+        c = strip(n["inner"][0])
+        if c.get("kind") == "DeclRefExpr" and c["referencedDecl"]["name"] == name:
+            return True
+    return any(has_call(c, name) for c in n.get("inner", []))
 
 
 def lvalue_name(n, cx):
@@ -221,7 +244,11 @@ def tr_int(n, cx):
         nm = lvalue_name(n, cx)
         return cx.use(nm)
     if k == "ArraySubscriptExpr":
+        if cx.cell and is_cell(n, cx.cell):
+            return cx.use("cell")
         arr, idx = array_parts(n, cx)
+        if arr in GLOBAL_TABLES:
+            return "(nthZ %s %s)" % (arr, tr_int(idx, cx))
         cx.arrays.add(arr)
         return "(nthZ %s %s)" % (cx.use(arr), tr_int(idx, cx))
     if k == "UnaryOperator":
@@ -912,6 +939,53 @@ def translate_locals_slice(path, fn, gname, names, extra=()):
     return {"name": gname, "c_name": fn, "params": plist, "arrays": [], "loop": False, "outs": names, "ret": "slice", "text": text}
 
 
+def translate_cell_slice(path, fn, gname, member):
+    """functions that read / update one element of an array reached through pointers (vol->bitmapTable[b]->map[i]):
+       the element is the parameter `cell`; the result is the value returned, or the value stored into the element."""
+    d = find_function(path, fn)
+    cx = Ctx(fn)
+    cx.cell = member
+    for p_ in d["inner"]:
+        if p_.get("kind") == "ParmVarDecl" and ctype(p_)[0] == "p":
+            cx.ptr_params.add(p_["name"])
+    body = [c for c in d["inner"] if c.get("kind") == "CompoundStmt"][0]
+    kept = []
+    result = None
+    for s_ in body["inner"]:
+        k = s_.get("kind")
+        if has_call(s_, "__assert_fail"):
+            continue
+        if k == "DeclStmt":
+            kept.append(s_)
+        elif k == "BinaryOperator" and s_.get("opcode") == "=":
+            lhs = s_["inner"][0]
+            if is_cell(lhs, member):
+                if result is not None:
+                    raise Unsupported("cell slice %s: element stored twice" % fn)
+                result = s_["inner"][1]
+            elif is_array_access(lhs) or strip(lhs).get("kind") == "MemberExpr":
+                continue                      # bookkeeping on other fields (dirty flags)
+            else:
+                kept.append(s_)
+        elif k == "ReturnStmt":
+            inner = [c for c in s_.get("inner", []) if isinstance(c, dict) and c]
+            if inner:
+                result = inner[0]
+        else:
+            raise Unsupported("cell slice %s: statement %s" % (fn, k))
+    if result is None:
+        raise Unsupported("cell slice %s: no result" % fn)
+
+    def ret(_):
+        return tr_int(result, cx)
+    tr = FnTr(cx, ret)
+    term = tr.block(kept, lambda: ret(None))
+    plist = sorted(cx.free)
+    sig = " ".join("(%s : Z)" % p_ for p_ in plist)
+    text = "Definition %s %s :=\n%s.\n" % (gname, sig, term)
+    return {"name": gname, "c_name": fn, "params": plist, "arrays": [], "loop": False, "outs": [], "ret": "int", "text": text}
+
+
 def translate_guard(path, fn, gname, devcall, extra=()):
     """I/O funnel: translate the function up to its single call of `devcall`; the result is
          GRet rc        (returned before any device access)
@@ -1024,9 +1098,13 @@ def table_values(path, name):
         n = strip(n)
         k = n.get("kind")
         if k == "InitListExpr":
-            r = [vals(c) for c in n.get("inner", [])]
-            # array fillers: trailing zero elements are implicit
-            return r
+            if "array_filler" in n:
+                r = [vals(c) for c in n["array_filler"][1:]]
+                m = re.search(r"\[(\d+)\]$", n.get("type", {}).get("qualType", ""))
+                if m:
+                    r += [0] * (int(m.group(1)) - len(r))
+                return r
+            return [vals(c) for c in n.get("inner", [])]
         if k == "IntegerLiteral":
             return int(n["value"])
         if k in ("ImplicitCastExpr", "CStyleCastExpr", "ConstantExpr"):
@@ -1037,23 +1115,14 @@ def table_values(path, name):
             return -vals(n["inner"][0])
         raise Unsupported("table %s: initialiser %s" % (name, k))
     init = [c for c in d["inner"] if c.get("kind") == "InitListExpr"][0]
-    # clang prints array_filler as first child for partially initialised arrays
-    def clean(n):
-        if n.get("kind") == "InitListExpr":
-            inner = [c for c in n.get("inner", [])]
-            if "array_filler" in n:
-                inner = inner  # explicit elements only are listed in 'inner'
-            n = dict(n)
-            n["inner"] = [clean(c) for c in inner if c.get("kind") != "ImplicitValueInitExpr"]
-        return n
-    return vals(clean(init))
+    return vals(init)
 
 
 def record_layouts(header_path, structs):
     """field offsets/sizes of the named structs, from clang -fdump-record-layouts"""
     src = "#include \"%s\"\n" % header_path
     for i, s in enumerate(structs):
-        src += "struct %s v%d;\n" % (s, i)
+        src += "int v%d = sizeof(struct %s);\n" % (i, s)
     r = subprocess.run(["clang", "-fsyntax-only", "-I" + os.path.join(REPO, "src"), "-Xclang", "-fdump-record-layouts", "-x", "c", "-"],
                        input=src, stdout=subprocess.PIPE, stderr=subprocess.PIPE, text=True)
     out = {}
@@ -1065,9 +1134,9 @@ def record_layouts(header_path, structs):
             out[cur] = {"fields": [], "size": None}
             continue
         if cur:
-            m = re.match(r"\s*(\d+) \|\s{3}(?!\s)(.+?) (\w+)(\[[\d\]\[]*\])?\s*$", line)
+            m = re.match(r"\s*(\d+) \|\s{3}(?!\s)(.+?) (\w+)\s*$", line)
             if m:
-                out[cur]["fields"].append((m.group(3), int(m.group(1)), (m.group(2) + (m.group(4) or "")).strip()))
+                out[cur]["fields"].append((m.group(3), int(m.group(1)), m.group(2).strip()))
             m = re.match(r"\s*\| \[sizeof=(\d+)", line)
             if m:
                 out[cur]["size"] = int(m.group(1))
@@ -1184,6 +1253,9 @@ def main():
         attempt(f + ".idx", lambda f=f: translate_locals_slice(src("adf_bitm.c"), f, "s_%s_idx" % f,
                                                                ["sectOfMap", "block", "indexInMap"]))
 
+    for f in ("adfIsBlockFree", "adfSetBlockFree", "adfSetBlockUsed"):
+        attempt(f + ".val", lambda f=f: translate_cell_slice(src("adf_bitm.c"), f, "s_%s_val" % f, "map"))
+
     # --- constants and tables
     consts = {}
     for h in ("adf_blk.h", "adf_dev.h", "hd_blk.h", "adf_raw.h"):
@@ -1213,7 +1285,7 @@ def main():
     # --- write Generated/Leaf.v
     with open(os.path.join(OUT, "Leaf.v"), "w") as f:
         f.write("(* GENERATED by tools/c2v.py from %s - do not edit, do not commit *)\n" % REPO)
-        f.write("From Coq Require Import ZArith List Bool.\nFrom ADF Require Import CPrelude.\nImport ListNotations.\nLocal Open Scope Z_scope.\nLocal Open Scope bool_scope.\n\n")
+        f.write("From Coq Require Import ZArith List Bool.\nFrom ADF Require Import CPrelude Generated.Layout.\nImport ListNotations.\nLocal Open Scope Z_scope.\nLocal Open Scope bool_scope.\n\n")
         for r in fns:
             f.write("(* %s *)\n%s\n" % (r["c_name"], r["text"]))
     with open(os.path.join(OUT, "Layout.v"), "w") as f:
